@@ -3,8 +3,8 @@
                                   because every TemplatedFile goes through this constructor)
    sqlfluff.core.templaters.base: RawTemplater.process
    sqlfluff.core.templaters.jinja: JinjaTemplater._rectify_templated_slices   (contracts/c07_rectify.py: the remapping of the source
-                                  positions of the unreached-code variants onto the ORIGINAL file, proved under the precondition that
-                                  the caller establishes for templates without loops; 4 lemmas about the position shift)
+                                  positions of the unreached-code variants onto the ORIGINAL file, proved for any order of the
+                                  slices (loops) under a precondition on the deltas and slice boundaries; 5 lemmas)
 Bounded (labelled): python / jinja / placeholder slicers against the executable `valid` predicate (contracts/c07_bounded.py);
    _rectify_templated_slices on generated layouts and on every real call made over the jinja template grammar (c07_rectify.BOUNDED).
 """
